@@ -40,7 +40,7 @@ def plan(tier):
 def required(tier):
     return ["post:add_edge", "order_files_judged", "roundtrips_judged", "colon_in_Z_value", "tagless_link",
             "self_link", "both_end_declaration", "with_sequence_runs", "without_sequence_runs",
-            "complete_file_runs", "by_chrom_runs", "csv_rows_judged", "digit_in_tag_name", "mixed_case_sequences"]
+            "complete_file_runs", "by_chrom_runs", "csv_rows_judged", "digit_in_tag_name", "mixed_case_sequences", "single_segment_chromosomes"]
 
 
 SIDE_L = {"+": 1, "-": 0}
@@ -165,8 +165,11 @@ def compare_graph(src, out, nodes, with_seq, viol, who, expect_bo=True):
 
 
 def part_a(ctx, rng, casedir, sit, viol, sigs):
+    nsingle = rng.choice([0, 0, 1, 2])
     g = OC.gen_graph(rng, n_chrom=rng.choice([1, 2, 3]), scaffolds=rng.choice([2, 3, rng.randint(3, 12)]),
-                     id_style=rng.choice(["s", "name", "num"]))
+                     id_style=rng.choice(["s", "name", "num"]), singletons=nsingle)
+    if nsingle:
+        sit["single_segment_chromosomes"] += nsingle
     # self-links in the four forms on random nodes
     for _ in range(rng.randint(0, 3)):
         w = rng.choice(list(g.nodes))
@@ -194,7 +197,8 @@ def part_a(ctx, rng, casedir, sit, viol, sigs):
                      "witness": {"outcome": run.outcome, "tb": run.tb[-700:]}})
         return
     infos = {c: OC.classify(g, named[c], c) for c in order}
-    written = [c for c in order if infos[c]["in_domain"]]
+    # a single-segment component is always written (it is its own one-element chain)
+    written = [c for c in order if infos[c]["in_domain"] or infos[c]["reason"] == "single_node"]
     gf = OC.parse_gfa_outputs(run)
     cs = OC.parse_csv_outputs(run)
     targets = [(c, named[c]) for c in written] if by_chrom else [("complete", set().union(*[named[c] for c in written]) if written else set())]
@@ -224,6 +228,7 @@ def part_a(ctx, rng, casedir, sit, viol, sigs):
         if sorted(names_) != sorted(nodes):
             viol.append({"kind": "csv_rows", "msg": f"{key}: CSV lists {len(names_)} rows for {len(nodes)} nodes (duplicates: {len(names_) - len(set(names_))})"})
         artic = set().union(*[infos[c]["ro"]["artic"] for c in written]) if written else set()
+        singles = {n for c in written if infos[c]["reason"] == "single_node" for n in named[c]}
         for r in body:
             if len(r) != 6 or r[0] not in tags:
                 viol.append({"kind": "csv_row_shape", "msg": f"{key}: CSV row {r}"})
@@ -232,6 +237,8 @@ def part_a(ctx, rng, casedir, sit, viol, sigs):
                 viol.append({"kind": "csv_bo_no", "msg": f"{key}: CSV row {r} but GFA has BO/NO {tags[r[0]]}"})
                 break
             role = "orange" if r[0] in artic else "blue"
+            if r[0] in singles:
+                continue  # the lone segment of a single-segment chromosome: either role is accepted
             if r[1] != role:
                 viol.append({"kind": "csv_role", "msg": f"{key}: node {r[0]} coloured {r[1]}, reference role says {role}"})
                 break
